@@ -2,7 +2,7 @@
    Everything is about the machines of Sup/Machine.v (supOFO / supARFO / supSOFO transcribed function by
    function) and holds for ANY machine state: any number of child specs, any pids, any wait set, hence after
    any history; the theorems over [reachable] quantify over all histories of machine calls explicitly. *)
-From Ergo Require Import Common.Base Sup.Intensity Sup.Machine Sup.MachineProofs Sup.OfoLoop.
+From Ergo Require Import Common.Base Sup.Intensity Sup.Machine Sup.MachineProofs Sup.OfoLoop Sup.SofoLoop.
 Local Open Scope Z_scope.
 
 (* No child termination goes unnoticed: the spec list after childTerminated is the old one with the pid of the
@@ -199,9 +199,10 @@ Print Assumptions C08_autoshutdown_arfo.
    as long as the supervisor has not started to stop, the children its machine records as running are exactly
    the prescribed ones (a_view of the specification a_exit), and it starts to stop exactly when and why the
    specification says (significant child / auto-shutdown / intensity exceeded), stopping every running child.
-   Missing for the full C08_quiescent_children: the same closed loop for all-for-one / rest-for-one / simple
-   one-for-one and for histories with management calls and spawn failures; there the statement is evaluated as the
-   monitor spec_prescribed on every observed history, and each single decision is a theorem above. *)
+   Missing for the full C08_quiescent_children: the same closed loop for all-for-one / rest-for-one (simple
+   one-for-one follows below) and for histories with DisableChild/EnableChild/AddChild and spawn failures; there the
+   statement is evaluated as the monitor spec_prescribed on every observed history (machine level and real node),
+   and each single decision of those machines is a theorem above. *)
 Theorem C08_quiescent_children_ofo : forall k h s a next,
   Iv k s a next ->
   let '(s', a', st) := ofo_loop k s next a h in
@@ -223,3 +224,19 @@ Theorem C08_quiescent_children_ofo_from_init : forall k cs h,
   end.
 Proof. exact ofo_closed_loop_from_init. Qed.
 Print Assumptions C08_quiescent_children_ofo_from_init.
+
+(* The closed loop, simple-one-for-one: every spec list with distinct names, every history of StartChild calls and
+   child exits from ProcessInit on: the number of running instances recorded per spec is the prescribed one, and
+   the supervisor gives up (stopping every instance, waiting for all of them, exceeded reason) exactly when the
+   specification does. *)
+Theorem C08_quiescent_children_sofo_from_init : forall k cs h,
+  k_kind k = SOFO -> NoDup (map fst cs) ->
+  let s := start k cs 0 in
+  alive s = true /\
+  let '(s', a', st) := sofo_loop k (m s) (nextpid s) (a_init k cs) h in
+  match st with
+  | None => a_phase a' = ANormal /\ m_view k s' = a_view a' /\ shut s' = false
+  | Some act => sofo_stop_ok s' a' act
+  end.
+Proof. exact sofo_closed_loop_from_init. Qed.
+Print Assumptions C08_quiescent_children_sofo_from_init.
